@@ -49,6 +49,9 @@ CLAIMED = {
  'C16': ('PBT: hypothesis trees x callback lists; independent bottom-up rewrite producing result, call log and expected metadata',
          'Generated-input search: for trees with a unique position marker on every node (or real spans from parse) and 0-3 callbacks (identity, log, replace class by other class / string / list, wrap) the real call log, result, per-node metadata, tuple/dict pass-through and the untouched input are compared with an independent bottom-up rewrite.',
          'Callbacks return their argument or fresh values (returning an existing descendant is ambiguous and excluded).'),
+ 'C17': ('PBT: exhaustive sweep inner x transparent wrapper x depth (crossing every block-budget threshold) x ignore x named + 8 deep-input recursion families; closed-form expected values, reference interpreter, failing inputs',
+         'Enumerated search: 7 inner expressions (literal, rule reference, template call, class, template parameter, let-bound name, symbolic count) x 12 wrapper kinds (incl. seeded mixtures) x depth 1..40 every and 45..120 (quick) / 1..130 every (thorough) x with/without ignore x named/unnamed; each case must compile, return the closed-form wrapped value (reference interpreter as second voice up to depth 40) and reject a failing input with ParseError/PartialParseError; whether code was split into helper functions is measured from include_source. Deep inputs: plain rule, class, templates (value and parser argument), ignore, named, operator-table mixfix row, right-recursive list at depth 10^4 (quick) / 10^5 (thorough), results checked iteratively, no RecursionError.',
+         'F28 (bound names inside split helpers) and F29 (Grammar() recursion at ~240 AST levels) excluded, witnesses replayed.'),
  'C19': ('PBT: one AST rendered twice (canonical fully parenthesised vs. random constructor/operator spellings, signs, separators, comments, line breaks, quotes, MINIMAL parentheses, bare start expression); differential between the renderings + reference interpreter on the AST',
          'Generated-input search: rich, core and grouping-focused ASTs (all binary operators of every precedence level mixed with postfix forms) are rendered canonically and with every documented alternative spelling and layout drawn at random, including minimal parenthesisation computed from the precedence table of the statement; both descriptions must compile and agree on every entry and all inputs of length <= 4 plus longer ones, and the reference interpreter evaluated on the AST must agree too, so the two renderings cannot agree on a wrong grouping.',
          'Constructor forms never get bare inline-Python operands (documented exception); let is always parenthesised.'),
